@@ -189,7 +189,17 @@ def run_one(kind, connect_answers, actions, prefix):
         gt.time = clock
         gw = gt.TCPGateway("198.51.100.9", timeout=0.25, reconnect_timeout=R, protocol_version="2.2")
     gw.on_conn_made = lambda g: env.log.append(("made", S.vtime(), g is gw))
-    gw.on_conn_lost = lambda g, exc: env.log.append(("lost", S.vtime(), type(exc).__name__ if exc else None, g is gw))
+    slow = bool(env.actions) and env.actions[0][0] == "slow-callbacks"
+    if slow:
+        env.actions.pop(0)
+    env.slow = slow
+
+    def on_lost(g, exc):
+        env.log.append(("lost", S.vtime(), type(exc).__name__ if exc else None, g is gw))
+        if slow:
+            S.coop_sleep(0.2 * R)  # a user callback that takes its time (logging, notifying, ...)
+
+    gw.on_conn_lost = on_lost
     S.PUMP_TASKS[0] = gw.tasks
     env.gw = gw
 
@@ -209,7 +219,7 @@ def run_one(kind, connect_answers, actions, prefix):
                 # these need an established link; wait for it (bounded in virtual time)
                 sched.block(link_up, ("env.wait-link",), timeout=6 * R)
                 if not link_up():
-                    env.log.append(("env-skipped", name))
+                    env.log.append(("env-skipped", name, sched.now))
                     continue
             dev = env.devices[-1] if env.devices else None
             env.log.append(("env", name, sched.now))
@@ -313,7 +323,7 @@ def judge(kind, env, sched):
             horizon = min([x[2] for x in env_events if x[1] in ("disconnect", "stop") and x[2] > t_loss] + [10 ** 9])
             later = [a for a in env.attempts if a >= t_loss - 1e-9]
             info["unrequested_losses"] += 1
-            limit = t_loss + (2.0 * R + 0.5 if kind == "tcp" and e[1] == "read-error" else 0.1)
+            limit = t_loss + (2.0 * R + 0.5 if kind == "tcp" and e[1] == "read-error" else 0.1) + (0.2 * R if getattr(env, "slow", False) else 0.0)
             if not [a for a in later if a <= limit] and horizon > limit:
                 out.append(("no-reconnect", e[1], f"link lost ({e[1]}) at t={t_loss} but no connect attempt follows by t={limit}: attempts {env.attempts}; log {short(log, 300)}"))
     # retry interval after a refused attempt
@@ -323,9 +333,15 @@ def judge(kind, env, sched):
             info["retry_intervals_checked"] += 1
             if abs((b[1] - a[1]) - R) > 1e-6 and not any(x[0] == "env" and x[1] in ("read-error", "send-write-error") and a[1] <= x[2] <= b[1] for x in log):
                 out.append(("retry-interval", "", f"attempt refused at t={a[1]}, next attempt at t={b[1]} (configured {R})"))
-    live = sum(1 for d in env.devices if (kind == "serial" and d.is_open) or (kind == "tcp" and not d.closed))
     if len(env.devices) >= 2:
         info["runs_with_reconnect"] += 1
+    # a link that was established (device opened, connection-made reported) and never reported lost must be usable:
+    # the script's next link action waited 6 R for it
+    for e in log:
+        if e[0] == "env-skipped" and len(made) > len([x for x in lost if x[1] <= e[2]]) and not any(x[0] == "env" and x[1] in ("disconnect", "stop") and x[2] <= e[2] for x in log):
+            opened_before = [d for d in env.devices]
+            out.append(("link-unusable-after-connect", "", f"{len(made)} connection(s) made, {len(lost)} lost, yet at t={e[2]} the gateway had no usable transport for 6 R ({e[1]} skipped); log {short(log, 400)}"))
+            break
     return out, info
 
 
@@ -354,6 +370,10 @@ def scripts(kind, tier):
     out.append(([], [("immediate",), ("stop",), ("wait", 3 * R)]))
     out.append((["refuse"], [("immediate",), ("stop",), ("wait", 3 * R)]))
     out.append((["refuse", "refuse", "refuse"], [("wait", 1.5 * R), ("stop",), ("wait", 3 * R)]))
+    # the user's connection-lost callback takes its time (0.2 R) while the library reconnects
+    for first in (("read-error",), ("send-write-error",)) + ((("peer-close",),) if kind == "tcp" else ()):
+        out.append(([], [("slow-callbacks",), first, ("send",), ("wait", 1.5 * R), ("stop",)]))
+        out.append(([], [("slow-callbacks",), first, ("bytes",), ("send",), ("stop",)]))
     return out
 
 
